@@ -585,15 +585,17 @@ UNIT = Unit(
             }"""},
            }),
         Fn("src/multi.rs", "MultiState", "mark_zombie",
-           rewrites=[Rw("R5", r"self\.width\(\)\.map\(usize::from\)", "opt_u16_usize(self.width())"),
+           rewrites=[Rw("R5", r"self\.width\(\)\.map\(usize::from\)", "opt_u16_usize(self.width())", count="any"),
                      Rw("R5", r"self\.ordering\.first\(\)\.copied\(\)", "vec_first(&self.ordering)"),
-                     Rw("R5", r"member\s*\.draw_state\s*\.as_ref\(\)\s*\.zip\(width\)\s*\.map\(\|\(d, width\)\| d\.visual_line_count\(\.\., width\)\)\s*\.unwrap_or_default\(\)", "opt_line_count2(&member.draw_state, width)")],
+                     Rw("R5", r"member\s*\.draw_state\s*\.as_ref\(\)\s*\.zip\(width\)\s*\.map\(\|\(d, width\)\| d\.visual_line_count\(\.\., width\)\)\s*\.unwrap_or_default\(\)", "opt_line_count2(&member.draw_state, width)", count="any"),
+                     # R5b: `opt.as_ref().map(|d| E).unwrap_or_default()` -> match (exact desugaring), for any other shape of the row count
+                     Rw("R5b", r"member\s*\.draw_state\s*\.as_ref\(\)\s*\.map\(\|d\| (.*?)\)\s*\.unwrap_or_default\(\)", r"(match &member.draw_state { Some(d) => \1, None => VisualLines::default() })", count="any", flags=re.S)],
            requires=[("wf", "old(self).wf()"), ("target-wf", "old(self).draw_target.wf()"), ("own-target", "!(old(self).draw_target.kind is Multi)"),
                      ("member", "old(self).ordering@.contains(index) && index < old(self).members@.len()"),
                      ("sizes", "old(self).zombie_lines_count.0 <= 0x0FFF_FFFF && forall|w: nat| 1 <= w <= 65535 ==> #[trigger] mheight(old(self).members@[index as int], w) <= 0x0FFF_FFFF")],
-           proofs=[(r"let line_count = opt_line_count2", "before", """        proof {
+           proofs=[(r"let width = opt_u16_usize\(self\.width\(\)\);", "after", """        proof {
             if width is Some { let wv = width.unwrap() as nat; assert(1 <= wv <= 65535); assert(mheight(old(self).members@[index as int], wv) <= 0x0FFF_FFFF); }
-        }""")],
+        }""", "optional")],
            ensures=[("wf", "final(self).wf()"),
                     ("C06-no-terminal-op", "final(self).draw_target.ops() == old(self).draw_target.ops() && only_llc_differs(old(self).draw_target, final(self).draw_target)"),
                     ("C04-not-at-head-flagged", "old(self).ordering@[0] != index ==> final(self).ordering@ == old(self).ordering@ && final(self).members@[index as int].is_zombie "
@@ -621,6 +623,17 @@ UNIT = Unit(
                      Rw("R5", r"member\.draw_state\.get_or_insert\(DrawState::default\(\)\)", "opt_get_or_insert(&mut member.draw_state, DrawState::default())")],
            requires=[("slot", "idx < old(self).members@.len()")],
            ensures=[("C02-member-state", "r.orphan_lines is Some && (old(self).members@[idx as int].draw_state matches Some(d) ==> *r.state == d) && (old(self).members@[idx as int].draw_state is None ==> r.state.lines@.len() == 0)")]),
+        Raw("""
+// what MultiState::clear leaves behind (members, order and pending lines untouched; on an own terminal the
+// rows of reaped bars are wiped together with the frame and forgotten)
+spec fn ms_clear_post(a: MultiState, b: MultiState) -> bool {
+    &&& b.wf() && b.ordering@ == a.ordering@ && b.members@ == a.members@ && b.orphan_lines@ == a.orphan_lines@ && b.alignment == a.alignment
+    &&& b.draw_target.wf() && b.draw_target.same_kind(a.draw_target)
+    &&& b.zombie_lines_count.0 <= a.zombie_lines_count.0 && llc_of(b.draw_target) <= llc_of(a.draw_target) + a.zombie_lines_count.0
+    &&& (a.draw_target.hidden() ==> b.draw_target.ops() == a.draw_target.ops())
+    &&& (a.draw_target.own() is Some ==> b.zombie_lines_count.0 == 0)
+}
+"""),
         Fn("src/multi.rs", "MultiState", "clear", ret="r", sig_rewrites=[K.IO_RESULT],
            requires=[("wf", "old(self).wf()"), ("target-wf", "old(self).draw_target.wf()"), ("clock", "time_ok(now)"), ("own-target", "!(old(self).draw_target.kind is Multi)"),
                      ("sizes", "old(self).zombie_lines_count.0 <= 0x0FFF_FFFF && llc_of(old(self).draw_target) <= 0x0FFF_FFFF")],
@@ -628,19 +641,28 @@ UNIT = Unit(
                     ("target-wf", "final(self).draw_target.wf() && final(self).draw_target.same_kind(old(self).draw_target)"),
                     ("rows-bounded", "final(self).zombie_lines_count.0 <= old(self).zombie_lines_count.0 && llc_of(final(self).draw_target) <= llc_of(old(self).draw_target) + old(self).zombie_lines_count.0"),
                     ("C06-silent-when-hidden", "old(self).draw_target.hidden() ==> final(self).draw_target.ops() == old(self).draw_target.ops()"),
-                    ("C02-clear-wipes-zombies-too", "old(self).draw_target.own() is Some ==> final(self).zombie_lines_count.0 == 0")]),
+                    ("C02-clear-wipes-zombies-too", "old(self).draw_target.own() is Some ==> final(self).zombie_lines_count.0 == 0"),
+                    ("clear-post", "ms_clear_post(*old(self), *final(self))")]),
         Fn("src/multi.rs", "MultiState", "suspend", ret="r",
            sig_rewrites=[Rw("R5", r"<F: FnOnce\(\) -> R, R>", "<F: FnOnce() -> R, R>")],
-           proofs=[(r"let _ = self\.draw\(true, None, Instant::now\(\)\);", "before", """        proof {
+           proofs=[(r"(?m)^\s*let _ = self\.draw\(true, None, Instant::now\(\)\);\s*$", "at", """
+        let ghost m = *self;
+        proof {
             assert forall|w: nat| 1 <= w <= 65535 implies #[trigger] ms_small(*self, None, w) by {
                 assert(ms_small(*old(self), None, w));
                 assert(self.ordering@ == old(self).ordering@ && self.members@ == old(self).members@);
             }
-        }""")],
+        }
+        let __t2 = Instant::now();
+        let __r2 = self.draw(true, None, __t2);
+        proof { assert(ms_clear_post(*old(self), m) && ms_draw_post(m, *self, true, None, __t2, __r2)); }
+""")],
            requires=[("wf", "old(self).wf()"), ("target-wf", "old(self).draw_target.wf()"), ("clock", "time_ok(now)"), ("own-target", "!(old(self).draw_target.kind is Multi)"),
                      ("callback", "f.requires(())"),
                      ("sizes", "old(self).zombie_lines_count.0 <= 0x0FFF_FFFF && llc_of(old(self).draw_target) <= 0x0FFF_FFFF && forall|w: nat| 1 <= w <= 65535 ==> #[trigger] ms_small(*old(self), None, w)")],
            ensures=[("C18-no-panic-on-io-error", "f.ensures((), r)", ["C18"]),
+                    ("C01-C03-suspend-clears-everything-then-redraws",
+                     "exists|m: MultiState, t: Instant, r2: Result<(), IoError>| #[trigger] ms_clear_post(*old(self), m) && #[trigger] ms_draw_post(m, *final(self), true, None, t, r2)"),
                     ("C06-silent-when-hidden", "final(self).draw_target.hidden() == old(self).draw_target.hidden() && (old(self).draw_target.hidden() ==> final(self).draw_target.ops() == old(self).draw_target.ops())")]),
     ],
 )
